@@ -1,0 +1,113 @@
+//go:build verif
+
+// Contracts checked by /verif/gowp. This file contains comments only and is compiled only
+// with -tags verif.
+
+package resolver
+
+//@ macro okver(t) = call("github.com/Masterminds/semver.NewVersion", t)[1] == nil
+//@ macro ver(t) = call("github.com/Masterminds/semver.NewVersion", t)[0]
+//@ macro constraint(s) = call("github.com/Masterminds/semver.NewConstraint", s)[0]
+//@ macro isdigest(s) = call("github.com/google/go-containerregistry/pkg/v1.NewHash", s)[1] == nil
+
+//@ func (*resolver.Reconciler).findDependencyVersionToInstall
+//@ props C17
+//@ sweep
+//@ requires r != nil && dep != nil && r.config != nil && r.fetcher != nil && log != nil && ref != nil
+//@ let $tags = result (xpkg.Fetcher).Tags
+//@ ensures [C17:pinned-digest-is-installed-as-is] isdigest(dep.Constraints) ==> err == nil
+//@      && result == call("(v1.Hash).String", call("github.com/google/go-containerregistry/pkg/v1.NewHash", dep.Constraints)[0])
+//@ ensures [C17:nothing-when-no-tag-qualifies] err == nil && !isdigest(dep.Constraints) && result == "" ==>
+//@      forall k :: 0 <= k && k < len($tags) && okver($tags[k]) ==> !constraint(dep.Constraints).Check(ver($tags[k]))
+//@ ensures [C17:highest-satisfying-tag] err == nil && !isdigest(dep.Constraints) && result != "" ==>
+//@      exists i :: 0 <= i && i < len($tags) && okver($tags[i]) && constraint(dep.Constraints).Check(ver($tags[i]))
+//@        && result == ver($tags[i]).Original()
+//@        && forall j :: 0 <= j && j < len($tags) && okver($tags[j]) && constraint(dep.Constraints).Check(ver($tags[j]))
+//@             ==> ver($tags[j]) == ver($tags[i]) || !ver($tags[i]).LessThan(ver($tags[j]))
+//@ loop range tags
+//@   invariant [C17:parsed-come-from-tags] forall p {vs[p]} :: 0 <= p && p < len(vs) ==> exists k :: 0 <= k && k < done && okver($tags[k]) && vs[p] == ver($tags[k])
+//@   invariant [C17:every-semver-tag-is-parsed] forall k {ver($tags[k])} :: 0 <= k && k < done && okver($tags[k]) ==> exists p :: 0 <= p && p < len(vs) && vs[p] == ver($tags[k])
+//@ loop range vs
+//@   invariant [C17:last-satisfying] (addVer == "" && forall j {vs[j]} :: 0 <= j && j < done ==> !c.Check(vs[j]))
+//@        || exists k :: 0 <= k && k < done && c.Check(vs[k]) && addVer == vs[k].Original() && forall j {vs[j]} :: k < j && j < done ==> !c.Check(vs[j])
+
+// With upgrades enabled: the version an installed dependency is moved to. A digest shared by all
+// parents is taken as is; otherwise the result is the lowest tag that is not older than the
+// installed version and satisfies every parent's constraint, or - only if downgrades are
+// enabled and no such tag exists - the highest older tag satisfying every parent's constraint.
+//
+//@ macro VALID(v) = forall c {dep.GetParentConstraints()[c]} :: 0 <= c && c < len(dep.GetParentConstraints()) ==> constraint(dep.GetParentConstraints()[c]).Check(v)
+//@ macro NOTOLDER(v) = v.GreaterThan(call("github.com/Masterminds/semver.MustParse", insVer)) || v.Equal(call("github.com/Masterminds/semver.MustParse", insVer))
+
+//@ func (*resolver.Reconciler).findDependencyVersionToUpdate
+//@ props C17
+//@ requires r != nil && dep != nil && r.config != nil && r.fetcher != nil && log != nil && ref != nil
+//@ let $tags = result (xpkg.Fetcher).Tags
+//@ let $digest = result resolver.findDigestToUpdate
+//@ ensures [C17:shared-digest-is-taken-as-is] err == nil && $digest != "" ==> result == $digest
+//@ ensures [C17:update-target-satisfies-every-parent] err == nil && $digest == "" ==>
+//@      exists i :: 0 <= i && i < len($tags) && okver($tags[i]) && result == ver($tags[i]).Original() && VALID(ver($tags[i]))
+//@        && ((NOTOLDER(ver($tags[i]))
+//@              && forall j :: 0 <= j && j < len($tags) && okver($tags[j]) && VALID(ver($tags[j])) && NOTOLDER(ver($tags[j]))
+//@                    ==> ver($tags[j]) == ver($tags[i]) || !ver($tags[j]).LessThan(ver($tags[i])))
+//@         || (r.downgradesEnabled && !NOTOLDER(ver($tags[i]))
+//@              && forall j :: 0 <= j && j < len($tags) && okver($tags[j]) && VALID(ver($tags[j]))
+//@                    ==> !NOTOLDER(ver($tags[j])) && (ver($tags[j]) == ver($tags[i]) || !ver($tags[i]).LessThan(ver($tags[j])))))
+//@ loop range tags
+//@   invariant [C17:parsed-come-from-tags] forall p {availableVersions[p]} :: 0 <= p && p < len(availableVersions) ==> exists k :: 0 <= k && k < done && okver($tags[k]) && availableVersions[p] == ver($tags[k])
+//@   invariant [C17:every-semver-tag-is-parsed] forall k {ver($tags[k])} :: 0 <= k && k < done && okver($tags[k]) ==> exists p :: 0 <= p && p < len(availableVersions) && availableVersions[p] == ver($tags[k])
+//@ loop range dep.GetParentConstraints()
+//@   invariant [C17:every-parent-constraint-parsed] len(parentConstraints) == done && forall i {parentConstraints[i]} {dep.GetParentConstraints()[i]} :: 0 <= i && i < done ==> parentConstraints[i] == constraint(dep.GetParentConstraints()[i])
+//@ loop range availableVersions
+//@   invariant [C17:no-earlier-upgrade-candidate] forall j :: 0 <= j && j < done ==> !(VALID(availableVersions[j]) && NOTOLDER(availableVersions[j]))
+//@   invariant [C17:downgrade-candidate-is-last-valid] targetVersion != nil ==> r.downgradesEnabled
+//@        && exists k :: 0 <= k && k < done && targetVersion == availableVersions[k] && VALID(availableVersions[k])
+//@              && forall j :: k < j && j < done ==> !VALID(availableVersions[j])
+//@ site (*semver.Version).GreaterThan($v, _)
+//@   assert [C17:valid-means-every-parent-satisfied] valid ==> VALID($v)
+//@   assert [C17:invalid-means-some-parent-unsatisfied] !valid ==> !VALID($v)
+//@ loop range parentConstraints
+//@   invariant [C17:valid-so-far] valid && forall c :: 0 <= c && c < done ==> parentConstraints[c].Check(v)
+
+// findDigestToUpdate: a digest is returned only if every parent constraint is that same digest.
+//@ func resolver.findDigestToUpdate
+//@ props C17
+//@ sweep
+//@ requires node != nil
+//@ ensures [C17:digest-only-if-all-parents-agree] err == nil && result != "" ==>
+//@      forall i :: 0 <= i && i < len(node.GetParentConstraints()) ==> isdigest(node.GetParentConstraints()[i])
+//@        && result == call("(v1.Hash).String", call("github.com/google/go-containerregistry/pkg/v1.NewHash", node.GetParentConstraints()[i])[0])
+//@ ensures [C17:no-digest-means-no-parent-is-a-digest] err == nil && result == "" ==>
+//@      forall i :: 0 <= i && i < len(node.GetParentConstraints()) ==> !isdigest(node.GetParentConstraints()[i])
+//@ loop range node.GetParentConstraints()
+//@   invariant [C17:seen-digests-agree] forall i :: 0 <= i && i < done ==>
+//@        (isdigest(node.GetParentConstraints()[i]) ==> foundDigest == call("(v1.Hash).String", call("github.com/google/go-containerregistry/pkg/v1.NewHash", node.GetParentConstraints()[i])[0]))
+//@        && (!isdigest(node.GetParentConstraints()[i]) ==> foundVersion)
+//@   invariant [C17:not-both-kinds] !(foundVersion && foundDigest != "")
+//@   invariant [C17:flags-have-witnesses] (foundVersion ==> exists i :: 0 <= i && i < done && !isdigest(node.GetParentConstraints()[i]))
+//@        && (foundDigest != "" ==> exists i :: 0 <= i && i < done && isdigest(node.GetParentConstraints()[i]))
+
+// The lock reconciler creates or updates a package only for an acyclic graph that initialised
+// without error, and only with the version the selection functions returned.
+//@ func (*resolver.Reconciler).Reconcile
+//@ props C17
+//@ ghost acyclic bool = false
+//@ ghost initialised bool = false
+//@ let $toInstall = result (*resolver.Reconciler).findDependencyVersionToInstall
+//@ let $toUpdate = result (*resolver.Reconciler).findDependencyVersionToUpdate
+//@ let $implied = result (dag.DAG).Init
+//@ let $pack = result resolver.NewPackage
+//@ requires r != nil && r.config != nil && r.fetcher != nil && r.log != nil && r.client != nil && r.lock != nil && r.features != nil
+//@ site (dag.DAG).Init(_, $ns)
+//@   update initialised = err == nil
+//@ site (dag.DAG).Sort(_)
+//@   update acyclic = err == nil
+//@   bind $first = $implied[0]
+//@ site resolver.NewPackage($dep, $ver, $ref)
+//@   assert [C17:install-only-in-an-acyclic-initialised-graph] acyclic && initialised
+//@   assert [C17:installed-version-is-the-selected-one] $ver == $toInstall && $ver != ""
+//@   assert [C17:installed-dependency-is-the-first-missing-one] len($implied) > 0 && $dep == as($first, *v1beta1.Dependency)
+//@ site (client.Writer).Create(_, _, $o, $opts...)
+//@   assert [C17:created-object-is-the-rendered-package] $o == $pack
+//@ site (client.Writer).Update(_, _, $o, $opts...)
+//@   assert [C17:update-only-in-an-acyclic-initialised-graph] acyclic && initialised
